@@ -14,7 +14,7 @@
 EXTENDS Integers, Sequences, FiniteSets, TLC, Json
 
 CONSTANTS Keys, W, D, Tables, Kind, Mode, CellMax, CellMin, TotMax, TotMin, Amts, NH, Thr,
-          MaxTrue, MaxDepth, Whos, AllowIllegit
+          MaxTrue, MaxDepth, Whos, AllowIllegit, Channels, MaxReloads
 
 VARIABLES pos, sk, hist, last
 vars == <<pos, sk, hist, last>>
@@ -26,7 +26,7 @@ Clamp(v) == Mxx(CellMin, Mn(v, CellMax))
 Bin(k, i) == (pos[k][i] % W) + (i - 1) * W + 1
 
 Empty == [cells |-> [p \in 1..(W * D) |-> 0], total |-> 0, tru |-> [k \in Keys |-> 0], sat |-> FALSE,
-          tab |-> <<>>, lastRet |-> [k \in Keys |-> NoV], smallest |-> 0]
+          tab |-> <<>>, lastRet |-> [k \in Keys |-> NoV], smallest |-> 0, rl |-> 0]
 
 -----------------------------------------------------------------------------
 (* queries over the D values of a key *)
@@ -111,6 +111,7 @@ Ops == {<<"add", w, k, a>> : w \in Whos, k \in Keys, a \in Amts}
        \cup (IF Kind # "hh" THEN {<<"rem", w, k, a>> : w \in Whos, k \in Keys, a \in Amts} ELSE {})
        \cup {<<"clear", w, "", 0>> : w \in Whos}
        \cup (IF Kind = "cms" THEN {<<"join", w, "", 0>> : w \in Whos} ELSE {})
+       \cup (IF Kind = "cms" THEN {<<"rt", w, c, 0>> : w \in Whos, c \in Channels} ELSE {})   \* export + load: identity
 
 Init == /\ pos \in Tables
         /\ sk = [w \in {"A", "B"} |-> Empty]
@@ -122,7 +123,9 @@ Do(o) == LET w == o[2]  s == sk[w] IN
               [] o[1] = "rem" -> /\ (AllowIllegit \/ o[4] <= s.tru[o[3]])
                                  /\ LET r == RemS(s, o[3], o[4]) IN
                                     \E n \in r.outs : sk' = [sk EXCEPT ![w] = n] /\ last' = [o |-> o, ret |-> r.ret]
-              [] o[1] = "clear" -> sk' = [sk EXCEPT ![w] = Empty] /\ last' = [o |-> o, ret |-> NoV]
+              [] o[1] = "clear" -> sk' = [sk EXCEPT ![w] = [Empty EXCEPT !.rl = s.rl]] /\ last' = [o |-> o, ret |-> NoV]
+              [] o[1] = "rt" -> /\ s.rl < MaxReloads
+                                /\ sk' = [sk EXCEPT ![w].rl = @ + 1] /\ last' = [o |-> o, ret |-> NoV]
               [] o[1] = "join" -> sk' = [sk EXCEPT ![w] = JoinS(s, sk[Other(w)])] /\ last' = [o |-> o, ret |-> NoV]
          /\ hist' = Append(hist, o)
          /\ UNCHANGED pos
